@@ -685,8 +685,44 @@ func c05Select(p *chk.Prog, r *chk.Report) {
 	}
 	peer := rangeVal(f, loop)
 	// the peer is selected: no node selectors, or one of its selectors matches the node's labels
+	// the peer's selector list: the configured one, or a local holding it in which an empty list was replaced by the one
+	// selector that matches everything (labels.Everything(): the identity of "some selector matches")
+	peerSelectors := func(x ast.Expr) bool {
+		if f.MatchWith("P.cfg.NodeSelectors", x, chk.H("P", peer)) != nil {
+			return true
+		}
+		id, isId := ast.Unparen(x).(*ast.Ident)
+		if !isId || f.ObjOf(id) == nil {
+			return false
+		}
+		o := f.ObjOf(id)
+		isL := f.IsObj(o)
+		nCfg := 0
+		for _, d := range assignsTo(f, o) {
+			as, isAs := d.(*ast.AssignStmt)
+			if !isAs || len(as.Lhs) != len(as.Rhs) {
+				return false
+			}
+			for i, l := range as.Lhs {
+				if f.ObjOf(l) != o {
+					continue
+				}
+				rhs := ast.Unparen(as.Rhs[i])
+				if sel, isSel := rhs.(*ast.SelectorExpr); isSel && f.MatchWith("P.cfg.NodeSelectors", sel, chk.H("P", peer)) != nil {
+					nCfg++
+					continue
+				}
+				every := f.MatchNew("[]labels.Selector{labels.Everything()}", rhs) != nil || f.MatchWith("append(L, labels.Everything())", rhs, chk.H("L", isL)) != nil
+				sites := g.Find(func(n ast.Node) bool { return n == ast.Node(as) })
+				if !every || len(sites) != 1 || !g.Dominated(sites[0], chk.GAnyOf(g.GPat(true, "len(L) == 0", chk.H("L", isL)), g.GPat(true, "len(P.cfg.NodeSelectors) == 0", chk.H("P", peer)))) {
+					return false
+				}
+			}
+		}
+		return nCfg == 1
+	}
 	selector := func(e ast.Expr) bool {
-		for _, rs := range f.RangeLoops(func(x ast.Expr) bool { return f.MatchWith("P.cfg.NodeSelectors", x, chk.H("P", peer)) != nil }) {
+		for _, rs := range f.RangeLoops(peerSelectors) {
 			if rangeVal(f, rs)(e) {
 				return true
 			}
